@@ -28,6 +28,7 @@ impl StateMachine<'_> {
         self.handle_pending_line_with_diff_name()?;
         self.handled_diff_header_header_line_file_pair = None;
         self.in_binary_patch = crate::delta::BinaryPatch::No;
+        self.in_submodule_section = false;
         self.diff_line.clone_from(&self.line);
 
         // Pre-fill header fields from the diff line. For added, removed or renamed files
